@@ -14,16 +14,6 @@ def factsFrom (K : KeyInfo) (len : Ms → Nat) : Facts where
   nPaths := K.nPaths
   scriptLen := len
 
-/-- keys `check_global_consensus_validity` looks at: NOT the keys of `pk_h` -/
-def checkedKeysAt : Ms → List Key
-  | .pkK k => [k]
-  | .multi _ ks | .sortedMulti _ ks | .multiA _ ks | .sortedMultiA _ ks => ks
-  | _ => []
-
-/-- R2 restricted to the keys `from_ast` checks -/
-def ruleKeysChecked (F : Facts) (ctx : Ctx) (ms : Ms) : Bool :=
-  everyNode (fun m => (checkedKeysAt m).all (keyAllowed F ctx)) ms
-
 theorem checkPk_eq (K : KeyInfo) (len) (ctx : Ctx) (k : Key) :
     checkPk ctx (K.kind k) = keyAllowed (factsFrom K len) ctx k := by
   cases ctx <;> simp [checkPk, keyAllowed, factsFrom] <;> cases K.kind k <;> rfl
@@ -55,22 +45,24 @@ variable (env : KeyEnv) (K : KeyInfo) (ctx : Ctx)
 /-- node-level consequences of `from_ast` -/
 theorem fromAstNode_imp (len) (m : Ms) (h : fromAstNode env K ctx m = true) :
     rangeOk m = true ∧ multiAllowed ctx m = true ∧
-      (checkedKeysAt m).all (keyAllowed (factsFrom K len) ctx) = true := by
+      m.nodeKeys.all (keyAllowed (factsFrom K len) ctx) = true := by
   simp only [fromAstNode, Bool.and_eq_true, checkGlobalValidity] at h
   obtain ⟨⟨⟨h1, _⟩, _⟩, h4, _⟩ := h
   refine ⟨by rw [← termNodeOk_eq]; exact h1, ?_, ?_⟩
   · cases ctx <;> cases m <;> simp_all [multiAllowed, isTap, nodeChecked]
   · cases ctx <;> cases m <;>
-      simp_all [checkedKeysAt, ← checkPk_eq K len, List.all_eq_true, nodeChecked]
+      simp_all [Ms.nodeKeys, ← checkPk_eq K len, List.all_eq_true, nodeChecked]
 
 theorem constructed_rules (len) (ms : Ms) (h : constructed env K ctx ms = true) :
     ruleRange ms = true ∧ ruleMulti ctx ms = true ∧
-      ruleKeysChecked (factsFrom K len) ctx ms = true := by
+      ruleKeys (factsFrom K len) ctx ms = true := by
   simp only [constructed, List.all_eq_true] at h
-  simp only [ruleRange, ruleMulti, ruleKeysChecked, everyNode_eq, List.all_eq_true]
-  exact ⟨fun m hm => (fromAstNode_imp env K ctx len m (h m hm)).1,
-    fun m hm => (fromAstNode_imp env K ctx len m (h m hm)).2.1,
-    fun m hm => List.all_eq_true.mp (fromAstNode_imp env K ctx len m (h m hm)).2.2⟩
+  simp only [ruleRange, ruleMulti, ruleKeys, allKeys_eq, Ms.iterPk, everyNode_eq, List.all_eq_true,
+    List.mem_flatMap]
+  refine ⟨fun m hm => (fromAstNode_imp env K ctx len m (h m hm)).1,
+    fun m hm => (fromAstNode_imp env K ctx len m (h m hm)).2.1, ?_⟩
+  rintro k ⟨m, hm, hk⟩
+  exact List.all_eq_true.mp (fromAstNode_imp env K ctx len m (h m hm)).2.2 k hk
 
 theorem preorder_self_mem (ms : Ms) : ms ∈ ms.preorder := by
   cases ms <;> simp [Ms.preorder]
